@@ -2,13 +2,13 @@ SPECIFICATION FairSpec
 CONSTANTS
   Servers = {"s1", "s2", "s3"}
   NWorkers = 2
-  Q = 2
-  StartFirst = FALSE
+  Q = 1
+  StartFirst = TRUE
   KeyIds = {"k1", "k2"}
   DirectOutcomes = {"ok", "err", "bad"}
   NotaryOutcomes = {"ok", "err", "missing", "bad"}
   HasLocal = TRUE
-  CtxModes = {"live"}
-  StopOnDone = FALSE
+  CtxModes = {"before", "mid"}
+  StopOnDone = TRUE
 INVARIANTS TypeOK ExactUnion EachServerOnce NothingEarly QueueBound
 PROPERTIES Returns
